@@ -63,6 +63,7 @@ struct Sim {
     int err{0};
     int remaining{-1};
     bool shortw{false};
+    bool block{false}; // the write takes effect, then blocks until a signal interrupts it (memory.high reclaim loop), returns n
   };
   std::vector<WriteFault> write_faults;
   bool vanish_after_kill{false}; // a cgroup is removed (its manager's rmdir) as soon as cgroup.kill was written / its last pid signalled
